@@ -94,7 +94,9 @@ func runLoopThread(t LoopThread, blocks []lz.Block) (rec []RecEv) {
 	return append(rec, e)
 }
 
-func loopCfg(kind string) string { return loopCfgGeo(kind, lz.BufConfig{BufferSize: 6, ShrinkSize: 2, WindowSize: 6, BlockSize: 3}) }
+func loopCfg(kind string) string {
+	return loopCfgGeo(kind, lz.BufConfig{BufferSize: 6, ShrinkSize: 2, WindowSize: 6, BlockSize: 3})
+}
 
 func loopCfgGeo(kind string, bc lz.BufConfig) string {
 	sp := map[string]map[string]int{
